@@ -90,7 +90,7 @@ META = {
               "they receive &mut MoveList and only call push)"],
     "bounds": ["the whole position is symbolic (twelve bitboards, side given by the case, rights, ep target) under the property's validity predicate - "
                "up to 30 other men anywhere",
-               "case split (one SAT query each): generator x side to move x own-king square; quick: home square + one seeded square per colour; thorough: all 64",
+               "case split (one SAT query each): generator x side to move x own-king square; quick: home square + one seeded square per colour (+ one seeded far-rank square for the two pawn generators); thorough: all 64",
                "own men the generator loops over: <= 8 pawns / <= 4 knights / <= 4 diagonal sliders (bishops+queens) / <= 4 orthogonal sliders (rooks+queens); "
                "more is outside the claim (loop bounds, unwinding assertions on)"],
     "outside": ["king squares not run in this tier (listed per run in samples)", "more own knights/sliders than the loop bounds", "ArrayVec capacity"],
@@ -140,16 +140,24 @@ def jobs(tier, seed):
         return js
     js.append(in_check_job())
     if tier == "thorough":
+        squares = range(64)
+        if os.environ.get("C01_SQUARES"):   # sub-sample of the thorough tier (development / time-boxed runs)
+            squares = [SQ(x) for x in os.environ["C01_SQUARES"].split(",")]
         for gid in range(11):
             for wtm in (True, False):
-                for sq in range(64):
+                for sq in squares:
                     js.append(make_job(gid, wtm, sq, 5400))
         return js
     rnd = random.Random(seed)
     extra_w = SQ(rnd.choice(QUICK_POOL_W))
     extra_b = SQ(rnd.choice(QUICK_POOL_W)) ^ 56
+    # pawn logic interacts with where the own king stands relative to the pawns: behind them (home ranks), level, or in front of them near
+    # the promotion rank (pins of 7th-rank pawns). The pawn generators therefore get one more seeded king square from the far ranks.
+    far_w = rnd.choice([40, 42, 45, 47, 56, 59, 61, 63, 50, 53])   # a6 c6 f6 h6 a8 d8 f8 h8 c7 f7
+    far_b = rnd.choice([40, 42, 45, 47, 56, 59, 61, 63, 50, 53]) ^ 56
     for gid in range(11):
-        for wtm, squares in ((True, [SQ("e1"), extra_w]), (False, [SQ("e8"), extra_b])):
+        for wtm, squares in ((True, [SQ("e1"), extra_w] + ([far_w] if gid in (0, 1) and far_w != extra_w else [])),
+                             (False, [SQ("e8"), extra_b] + ([far_b] if gid in (0, 1) and far_b != extra_b else []))):
             for sq in squares:
                 # pawn captures with 8 pawns take ~27 min per query; quick bounds the looped-over pawns by 4 (thorough: 8)
                 js.append(make_job(gid, wtm, sq, 2400, max_own=4 if gid == 0 else None))
